@@ -65,6 +65,7 @@ structure St where
   modelDesync : Bool := false
   reported : List String := []
   prevMembers : List String := []
+  expectUnchanged : Bool := false
   dropped : List String := []               -- live containers a bulk re-allocation (sync/reconfig/restart) left without balloon
   reconfigChanged : List String := []       -- containers whose told cpuset changed in the reply to a re-applied configuration
   drained : Bool := false
@@ -218,11 +219,12 @@ def cpusOfRes (r : String) : String := (r.splitOn "|").headD "-"
 def step (st : St) (toks : List String) : St × List Issue :=
   match toks with
   | "H" :: h :: _ =>
-    ({ st with hist := h.toNat?.getD 0, ctrs := [], defs := [], tree := [], snap := {}, cacheView := [], lastEv := [], keys := [], model := none, prevBlns := [], initBlns := none, prevMembers := [], dropped := [], reconfigChanged := [],
+    ({ st with hist := h.toNat?.getD 0, ctrs := [], defs := [], tree := [], snap := {}, cacheView := [], lastEv := [], keys := [], model := none, prevBlns := [], initBlns := none, prevMembers := [], dropped := [], reconfigChanged := [], expectUnchanged := false,
                modelDesync := false, reported := [], drained := false, hists := st.hists + 1 }, [])
   | "M" :: _ => (st, [])
   | "HERR" :: _ => (st, [])
   | "X" :: _ => (st, [])
+  | "CFG" :: _ => ({ st with defs := [], tree := [] }, [])     -- balloon types may have changed; they are printed again with the next snapshot
   | ["Q", "drain"] => (st, [])
   | ["Q", "end"] =>
     -- quiescence: no container anywhere, every balloon at its configured minimum
@@ -246,9 +248,27 @@ def step (st : St) (toks : List String) : St × List Issue :=
         | some c => setCtr st { c with state := "refused" }
         | none => st
       | _ => st
-    ({ st with lastOk := false }, [])
+    let st := { st with lastOk := false }
+    if st.lastEv.head? == some "reconfig" && st.lastEv != ["reconfig", "same"] then
+      -- rejected configuration update: the revert may push updates, they must not change what the runtime has
+      let pushed := toks.getLast?.getD "-"
+      let ups : List (String × String) := if pushed == "-" then [] else
+        ((pushed.replace "#" ",").replace ";" ",").splitOn "," |>.filterMap fun u => match u.splitOn "=" with
+          | [id, r] => some (id, cpusOfRes r)
+          | _ => none
+      let (st, errs) := ups.foldl (fun (acc : St × List String) (id, cp) =>
+        match getCtr acc.1 id with
+        | some c =>
+          if cp != "-" && !sameSet (parseCpuList cp) (parseCpuList c.told) then
+            (setCtr acc.1 { c with told := cp }, acc.2 ++ [s!"C13:rejected-config-changed-resources {id} {c.told} -> {cp} {st.lastEv.getD 1 "?"}"])
+          else acc
+        | none => acc) (st, [])
+      let (st, is) := report st errs
+      ({ st with expectUnchanged := true }, is)
+    else (st, [])
   | ["R", "ok", adj, upd] =>
     let st := { st with lastOk := true }
+    let (st, early) := if st.lastEv.head? == some "reconfig" && ((st.lastEv.getD 1 "").startsWith "bad:") then report st [s!"C13:invalid-config-accepted {st.lastEv.getD 1 "?"}"] else (st, [])
     let ups : List (String × String) := if upd == "-" then [] else
       ((upd.replace "#" ",").replace ";" ",").splitOn "," |>.filterMap fun u => match u.splitOn "=" with
         | [id, r] => some (id, cpusOfRes r)
@@ -280,7 +300,7 @@ def step (st : St) (toks : List String) : St × List Issue :=
           setCtr st { c with told := cp }
         else st
       | none => st) st
-    (st, [])
+    (st, early)
   | ["V", view] =>
     let cv := if view == "-" then [] else (view.splitOn ",").filterMap fun e => match e.splitOn ":" with
       | [id, stt, res, pend] => some (id, stt, cpusOfRes res, pend == "1")
@@ -324,6 +344,16 @@ def step (st : St) (toks : List String) : St × List Issue :=
     let (st, is) := if down then (st, []) else report st (checkState st)
     let st : St := { st with prevMembers := st.snap.members.map (fun (m : String × String × Nat × Bool) => m.1) }
     let st := if st.initBlns.isNone then { st with initBlns := some st.snap.blns } else st
+    -- C13: a rejected configuration update leaves balloons and membership as they were
+    let (st, is) := if st.expectUnchanged then
+        let same := st.prevBlns.length == st.snap.blns.length && st.prevBlns.all (fun b =>
+          match st.snap.blns.find? (fun c => keyOf c == keyOf b) with
+          | some c => sameSet b.cpus c.cpus && sameSet b.shared c.shared && b.ctrs == c.ctrs
+          | none => false)
+        let errs := if !same then [s!"C13:rejected-config-changed-policy-state {st.lastEv.getD 1 "?"} balloons before={st.prevBlns.map (fun b => (keyOf b, b.cpus, b.ctrs))} after={st.snap.blns.map (fun b => (keyOf b, b.cpus, b.ctrs))}"] else []
+        let (st, is2) := report { st with expectUnchanged := false } errs
+        (st, is ++ is2)
+      else (st, is)
     -- C13: a re-applied unchanged configuration leaves balloons, membership and pinning as they were
     let (st, is) := if st.lastEv == ["reconfig", "same"] then
         let errs : List String := if !st.lastOk then ["C13:unchanged-config-rejected"] else []
